@@ -13,6 +13,8 @@ C10 driver. Line kinds
    evs : SAc<i>:<k> SAr<i> EVc<i> EVr<i> NMc<i> NMr<i> STc<i>:<code> STr<i> CHc<i> CHr<i> IRc<i> IRr<i>:<0|1>
          ENc<i> ENr<i> OE<p>:<sn> OT PANIC HANG
    snap: `<endTime> <children> <name> <status> <uniq i_j,…|-> <shared j=v,…|-> <events a.b.c|-> <immutable 0|1>`
+`attrrace <gen> <n attrs> <dup keys> <concurrent Attributes() 0|1> => race | norace | race:other | err`
+   known finding F36, observed in a race-instrumented child process (Spec.F36_applies / Spec.attrRaceVerdict)
 -/
 import Otel.Base.Wire
 import Otel.C04.Spec
@@ -206,6 +208,18 @@ def stepLine (_ : Unit) (toks : List String) : Unit × Option Verdict :=
   | "sched" :: _ :: task :: pg :: a :: b :: c :: d :: e :: f :: name0 :: rest =>
     ((), schedLine task pg [a, b, c, d, e, f] name0 rest obs)
   | "hist" :: _ :: perm :: nShared :: "|" :: evToks => ((), histLine perm nShared evToks obs)
+  | ["attrrace", _, n, dup, conc] =>
+    match n.toNat?, dup.toNat?, obs with
+    | some n, some dup, [o] =>
+      let applies := Spec.F36_applies n dup (conc == "1")
+      let spec := match Spec.attrRaceVerdict n dup (conc == "1") o with
+        | some true => "KNOWN:F36"
+        | some false => "ok"
+        | none => "FAIL"
+      ((), some { agree := true, spec := spec, nontrivial := applies,
+                  branches := (if applies then "f36-applies" else "control") ++ "," ++ (if o == "norace" then "norace" else "race"),
+                  model := if applies then "race-possible" else "norace" })
+    | _, _, _ => ((), none)
   | _ => ((), none)
 
 def main : IO Unit := Wire.run () stepLine
